@@ -115,3 +115,89 @@ Example c05_example :
   /\ failed (final es) = true
   /\ In (HDone 7 OTimeout) (outs es) /\ In (HDone 8 (OFailure 81)) (outs es).
 Proof. vm_compute. repeat split; auto 20. Qed.
+
+(* ---- frames and the acknowledgement timeout in the SAME loop iteration (model/AshRace.v) ----------
+   asyncio runs the I/O callback before the due timer and both before any coroutine resumes, so the
+   frames take effect and the attempt then ends as a timeout whatever they carried (an ACK that races
+   the timeout does not complete the send; the frame is repeated).  The statements above hold of runs
+   that contain such steps as well:
+     routs es / rfinal es   := outputs / final state of [rrun h_init es] over [revent := REv e | RRace fs]
+     rsubmits_unique es     := the ids of the REv (Submit ..) events are distinct                       *)
+Require Import BV.model.AshRace BV.proofs.AshRace_proofs.
+
+Theorem c05_race_attempts : forall es id, rsubmits_unique es ->
+  exists frm p n, (n <= N.to_nat ACK_TIMEOUTS)%nat /\
+    datas id (routs es) = map (fun k => (frm, if Nat.eqb k 0 then 0 else 1, p)) (seq 0 n).
+Proof. exact race_attempts. Qed.
+
+Theorem c05_race_timeout_bounds : forall es, in_bounds (t_ack (rfinal es)).
+Proof. exact race_timeout_bounds. Qed.
+
+Theorem c05_race_deadline : forall es c, cur (rfinal es) = Some c ->
+  exists t, in_bounds t /\ cdeadline c = PrimFloat.add (csent c) t.
+Proof. exact race_deadline. Qed.
+
+Theorem c05_race_quiescent : forall es, quiescent (rfinal es).
+Proof. exact race_quiescent. Qed.
+
+(* an acknowledgement that races the timeout never completes the send; a send completes only in an
+   ordinary read that carries a covering acknowledgement *)
+Theorem c05_race_never_ok : forall st fs id, quiescent st -> ~ In (HDone id OOk) (snd (race_step st fs)).
+Proof. exact race_never_ok. Qed.
+
+Theorem c05_race_ok_needs_ack : forall es e id, rsubmits_unique es ->
+  In (HDone id OOk) (snd (rstep (rfinal es) e)) ->
+  exists c e0, e = REv e0 /\ cur (rfinal es) = Some c /\ cid c = id /\
+               has_frame (acks ((cfrm c + 1) mod 8)) e0.
+Proof. exact race_ok_needs_ack. Qed.
+
+(* the repeat written in such a step is the timeout's: same send, same frame number, at the deadline *)
+Theorem c05_race_repeat_is_timeout : forall st fs id frm ack p t, quiescent st ->
+  In (HData id frm 1 ack p t) (snd (race_step st fs)) ->
+  exists c, cur st = Some c /\ cid c = id /\ cfrm c = frm /\ t = cdeadline c.
+Proof. exact race_repeat_is_timeout. Qed.
+
+Theorem c05_race_failed_silent : forall st fs, failed st = true ->
+  (forall f, In f fs -> ~ is_rstack_or_rst f) ->
+  failed (fst (race_step st fs)) = true /\
+  (forall id frm re ack p t, ~ In (HData id frm re ack p t) (snd (race_step st fs))).
+Proof. exact race_failed_silent. Qed.
+
+Theorem c05_race_failed_nothing_waiting : forall es,
+  failed (rfinal es) = true -> cur (rfinal es) = None /\ waiters (rfinal es) = [].
+Proof. exact race_failed_nothing_waiting. Qed.
+
+Theorem c05_race_error_reported : forall st fs v code, In (Error v code) fs ->
+  (exists c, cur st = Some c /\ cfut c = FPending) ->
+  In (HReset code) (snd (race_step st fs)).
+Proof. exact race_error_reported. Qed.
+
+(* upward reports of such a step: one per ERROR / RSTACK frame, at most one more for the spent budget *)
+Theorem c05_race_reports_bounded : forall st fs,
+  (length (filter (fun o => match o with HReset _ => true | _ => false end) (snd (race_step st fs)))
+   <= length (filter (fun f => match f with Error _ _ | Rstack _ _ => true | _ => false end) fs) + 1)%nat.
+Proof. exact race_reports_bounded. Qed.
+
+Theorem c05_race_window : forall st fs id frm re ack p t,
+  In (HData id frm re ack p t) (snd (race_step st fs)) ->
+  (exists c, cur (fst (race_step st fs)) = Some c /\ cid c = id /\ cfrm c = frm /\ cpayload c = p /\
+             cfut c = FPending)
+  /\ length (filter (fun o => match o with HData _ _ _ _ _ _ => true | _ => false end)
+                    (snd (race_step st fs))) = 1%nat.
+Proof. exact race_window. Qed.
+
+Theorem c05_race_consecutive : forall st fs id frm ack p t,
+  (forall f, In f fs -> ~ is_rstack_or_rst f) ->
+  In (HData id frm 0 ack p t) (snd (race_step st fs)) ->
+  frm = tx_seq st /\ tx_seq (fst (race_step st fs)) = (frm + 1) mod 8.
+Proof. exact race_consecutive. Qed.
+
+(* non-vacuity: the covering ACK arrives together with the timeout: the frame is repeated (retransmit
+   flag set, at 1.6 s), nobody completes; the next ACK completes the send *)
+Example c05_race_example :
+  let es := [REv (Submit 7 [1; 2]); RRace [Ack 0 0 1]; REv (Frames [Ack 0 0 1])] in
+  exists t,
+    In (HData 7 0 1 0 [1; 2] t) (nth 1 (snd (rrun h_init es)) [])
+    /\ (forall id o, ~ In (HDone id o) (nth 1 (snd (rrun h_init es)) []))
+    /\ In (HDone 7 OOk) (nth 2 (snd (rrun h_init es)) []).
+Proof. exact race_example. Qed.
